@@ -60,8 +60,9 @@ type LoopInfo struct {
 	Fn      *ssa.Function
 	Trip    Poly
 	TripOK  bool
-	IV      map[string]bool // names of havoc symbols that are the canonical induction variable (start 0, step 1)
-	Kind    string          // zero | data | structural
+	IVInit  map[string]int64 // start value of each canonical induction variable
+	IV      map[string]bool  // names of havoc symbols that are the canonical induction variable (start 0, step 1)
+	Kind    string           // zero | data | structural
 	HdrName string
 }
 
@@ -186,16 +187,17 @@ type Config struct {
 
 // Exec runs one root function over all its paths.
 type Exec struct {
-	cfg     Config
-	syms    *symtab
-	results []*PathResult
-	steps   int
-	paths   int
-	aborted string
-	loops   map[*ssa.Function][]*ssau.Loop
-	objN    int
-	fresh   int
-	externs map[string]bool // IDs of extern objects
+	cfg       Config
+	syms      *symtab
+	results   []*PathResult
+	steps     int
+	paths     int
+	aborted   string
+	loops     map[*ssa.Function][]*ssau.Loop
+	objN      int
+	fresh     int
+	externs   map[string]bool      // IDs of extern objects
+	loopInfos map[string]*LoopInfo // by header name (last summarisation)
 }
 
 func NewExec(cfg Config) *Exec {
